@@ -5,20 +5,61 @@ from checks.harness import meta
 
 PROPERTY = "C12"
 LEVEL = "proof"
-LEAN_MODULES = ["Exetera.Props.C12"]
-BASES = ["c03", "c04", "c16", "c05", "c18"]
+LEAN_MODULES = ["Exetera.Props.C12", "Exetera.Props.C12Copy", "Exetera.Props.C12Map", "Exetera.Props.C12Rest", "Exetera.Props.C12Legacy", "Exetera.Witness.C12"]
+BASES = ["c03", "c04", "c16", "c05", "c18", "c12_copy", "c12_legacy"]
 MODES = {"quick": ["jit"], "thorough": ["jit", "nojit"], "search": ["jit"]}
 CASE_TIMEOUT = 15
 EXHAUSTIVE = {"quick": False, "thorough": False}
-TECHNIQUE = "Lean 4 total-correctness theorems (explicit linear fuel bound, fuel-indexed loops; outOfFuel = spin) + call-count correspondence and watchdog on adversarial inputs"
-LEVEL_TEXT = ("Proof on the model's step semantics: every modelled streamed driver, given fuel above an explicit bound linear in input plus "
-              "output size, finishes normally for every chunk size >= 1 (also when a run of equal keys exceeds the chunk), and the number of "
-              "kernel invocations is at most twice that bound. Partial by nature: wall-clock time is not modelled; the step semantics is tied "
-              "to the code by comparing kernel-invocation counts and by a watchdog.")
-LEVEL_NOTE = ("Trusted: Lean kernel; the hand-written driver models (validated by result and call-count correspondence); the watchdog "
-              "(CASE_TIMEOUT seconds, retried with 4x budget) for what 'hang' means on the implementation.")
+TECHNIQUE = ("Lean 4 total-correctness theorems over fuel-indexed driver loops (outOfFuel = spin): explicit linear fuel bounds, "
+             "clear-error theorems, one-iteration progress (strictly decreasing measure) theorems + call-count correspondence and "
+             "watchdog on adversarial inputs")
+LEVEL_TEXT = ("Proof on the model's step semantics, per streamed driver, for every chunk size >= 1 and EVERY fuel above an explicit "
+              "bound linear in input plus output size (the bound is written out in each statement): "
+              "(1) the eight join-map generators: fuel >= |L|+|R|+2|left join|+1 gives the relational join, kernel invocations <= 2x "
+              "that bound, also when a run of equal keys exceeds the chunk (join_streamed_terminates/_never_spins, "
+              "get_next_chunk_terminates); "
+              "(2) ordered_map_valid_stream: at most ceil(|map|/cs) iterations (map_stream_iterations), fuel >= |map| suffices "
+              "(map_stream_terminates), every iteration moves to the next chunk (map_stream_never_spins); "
+              "(3) ordered_map_valid_indexed_stream: with fuel >= |map|+|indices| for the loop over map chunks and for every "
+              "`while sm < sm_end` loop the result is the specified column, or the ValueError 'entry does not fit the value "
+              "buffer' when a mapped entry is longer than chunksize*value_factor, never outOfFuel "
+              "(map_indexed_stream_total/_terminates/_clear_error); every iteration of `while sm < sm_end` consumes a map entry or "
+              "moves to the next value sub-chunk (map_indexed_stream_never_spins); "
+              "(4) Session.apply_spans_concat: fuel >= number of spans gives concatSpec with at most one kernel call per span "
+              "(concat_terminates_linear), every batch handles >= 1 span (concat_never_spins); "
+              "(5) DataFrame.to_csv: fuel >= len(first column)+1 gives the specified rows (export_terminates), chunk_row_size <= 0 is "
+              "the ValueError (export_clear_error), every iteration breaks or consumes chunk_row_size rows (export_never_spins); "
+              "(6) element_chunked_copy/chunked_copy: exactly ceil(n/cs) writes, destination = source, for every fuel with "
+              "n <= fuel*cs (chunked_copy_eq/_terminates/_field_eq), every iteration advances by min(cs, n-i) "
+              "(chunked_copy_never_spins); "
+              "(7) read_file_using_fast_csv_reader: fuel >= records+2 gives the file's columns, under C05's two no-regrowth "
+              "hypotheses only (csv_driver_terminates_partial); "
+              "(8) the legacy driver generate_ordered_map_to_left_right_unique_streamed_old: `.ok` on every input within the model's "
+              "budgets |L|+|R| (main loop) and |L| (tail), every iteration advances i+j (legacy_join_streamed_terminates/_never_spins); "
+              "(9) the legacy mapper ordered_map_valid_stream_old WITH fix NC12a: on every input (any map, in range or not) an "
+              "error other than outOfFuel or `.ok` within |map|+|data|+1 iterations, every iteration consumes a map entry, moves to "
+              "the next data chunk or is the ValueError (legacy_map_stream_never_spins/_progress); in C19's regime it equals the "
+              "as-found model and returns the specified column (legacy_map_stream_terminates); as found it spins on a map entry "
+              ">= len(data) (Witness.C12.nc12a_legacy_map_stream_spins). "
+              "Partial by nature: wall-clock time is not modelled; the step semantics is tied to the code by comparing "
+              "kernel-invocation / write counts and by a watchdog.")
+LEVEL_NOTE = ("The drivers of (2)-(4) are the models of C04/C16 with the fuel of their driver loops turned into a parameter "
+              "(Model/StreamFuel.lean), tied to the models the correspondence runs by rfl theorems (…_eq_F) and, for the indexed "
+              "stream, by indexedStream_agree; the kernels called from those loops keep the budgets written in their models (each "
+              "linear in the window the kernel is given) and finish within them as part of the same `.ok` statements. The indexed "
+              "stream's bound is linear for a fixed run of the driver loops; the total work over a NON-monotone map (NC02a) can "
+              "revisit a source window once per sub-chunk and is then bounded by the product |map|·min(cs,|source|), not stated "
+              "here. Not proved: CSV reading with regrowth of the staging buffers (_partial, owned by C05); NC12a (found by this check): "
+              "ordered_map_valid_stream_old spins on a map entry that is not a row of the source; repaired by "
+              "fixes/NC12a_map_valid_stream_old_unmapped_row.patch, the model of (9) is the code with that patch (Model/LegacyMapFix.lean), "
+              "the driver reports the as-found variant next to it, and the witness cases (fixes/NC12a_corpus_proposed.json) enter "
+              "corpus/C12 together with the patch. With chunksize = 0 (outside the property) "
+              "element_chunked_copy spins — recorded as a fixpoint example next to chunked_copy_eq, not a finding. "
+              "Trusted: Lean kernel; the hand-written driver models (validated by result and call-count correspondence); the "
+              "watchdog (CASE_TIMEOUT seconds, retried with 4x budget) for what 'hang' means on the implementation.")
 RULE = ("cases of the streamed-operation harnesses restricted to streaming entry points, plus their adversarial generators (run >= chunk, "
-        "chunk size 1, empty inputs); non-trivial = more than one driver iteration in the model; distinct = distinct case dict")
+        "chunk size 1, empty inputs), plus chunked_copy on plain and indexed memory fields (every length 0..7 x chunk size 1..9, "
+        "random lengths to 400 with chunk sizes n-1, n, n+1); non-trivial = more than one driver iteration in the model; distinct = distinct case dict")
 ASSUMPTIONS = ["a Python-level spin is interrupted by SIGALRM; a spin inside a compiled kernel is detected by the worker stall timeout"]
 TRUSTED = ["Lean 4.33 kernel", "axioms propext/Classical.choice/Quot.sound only", "checks/harness/*.py"]
 
@@ -60,13 +101,40 @@ def check_spec(case, io, mode):
     if io.get("err") == "hang":
         return "did not finish within the watchdog budget (spins)"
     b = meta.base(case["_h"])
+    if case["_h"] in ("c12_copy", "c12_legacy"):
+        why = b.check_spec(case, io, mode)
+        if why:
+            return why
     bound = getattr(b, "step_bound", None)
     if bound and io.get("calls") is not None and io["calls"] > bound(case, io):
         return f"{io['calls']} kernel invocations exceed the linear bound {bound(case, io)}"
     return None
 
 
+def match_finding(case, io, mode):
+    b = meta.base(case["_h"])
+    fm = getattr(b, "match_finding", None) if case["_h"].startswith("c12_") else None
+    return fm(case, io, mode) if fm else None
+
+
 def select_for_mode(case, mode, tier):
     b = meta.base(case["_h"])
     sel = getattr(b, "select_for_mode", None)
     return sel(case, mode, "thorough") if sel else True
+
+
+# ------------------------------------------------------------------------------------------------------------------
+# worker warm-up: the owning harnesses are imported lazily by `meta.base` — inside the per-case alarm of checks/worker.py.
+# Importing them here (ExeTera, pandas, and the bases' own kernel warm-ups) happens before the alarm is armed: an alarm
+# firing inside an import or a numba compilation leaves the worker process broken for every following case.
+# ------------------------------------------------------------------------------------------------------------------
+import sys  # noqa: E402
+if sys.argv and sys.argv[0].endswith("worker.py"):
+    for _n in meta.available(BASES):
+        try:
+            _b = meta.base(_n)
+            _w = getattr(_b, "warm_up", None)
+            if _w:
+                _w()
+        except Exception:   # noqa
+            pass
